@@ -81,7 +81,11 @@ func loadRSA(name string) *rsa.PrivateKey {
 		panic(err)
 	}
 	os.MkdirAll(corpusDir, 0o755)
-	os.WriteFile(path, pem.EncodeToMemory(&pem.Block{Type: "RSA PRIVATE KEY", Bytes: stdx509.MarshalPKCS1PrivateKey(k)}), 0o644)
+	// written under a private name and renamed, so that a concurrent run never reads a partial file
+	tmp := fmt.Sprintf("%s.%d.tmp", path, os.Getpid())
+	if os.WriteFile(tmp, pem.EncodeToMemory(&pem.Block{Type: "RSA PRIVATE KEY", Bytes: stdx509.MarshalPKCS1PrivateKey(k)}), 0o644) == nil {
+		os.Rename(tmp, path)
+	}
 	k.Precompute()
 	return k
 }
@@ -1811,6 +1815,7 @@ func main() {
 		for _, l := range runAll(lines) {
 			o.Obs(l)
 		}
+		o.Retry(runCase) // a case that ran out of time in this pass is re-run alone with 10x deadlines
 		o.Close()
 		return
 	}
@@ -1826,6 +1831,7 @@ func main() {
 		for _, l := range runAll(lines) {
 			o.Obs(l)
 		}
+		o.Retry(runCase) // a case that ran out of time in this pass is re-run alone with 10x deadlines
 		o.Close()
 		return
 	}
